@@ -199,8 +199,8 @@ impl Check for C17 {
     }
     fn episodes(&self, tier: Tier) -> u64 {
         match tier {
-            Tier::Quick => 120_000,
-            Tier::Thorough => 5_000_000,
+            Tier::Quick => 4_000_000,
+            Tier::Thorough => 180_000_000,
         }
     }
     fn same_class(&self, a: &str, b: &str) -> bool {
